@@ -630,6 +630,9 @@ def fam_auto(rng, n, thorough=False):
                      hb_autopilot=rng.choice([0, 3, 12]), skip_hb_rate=False, comp=rng.choice([0, 5]), version=rng.choice([1, 2]))
             steps = opens(k) + [{"op": "sleep", "ms": period * 12}]
             out.append({"name": "auto/hb_%s_%s_%d" % (dialect, "off" if disable else "on", period), "conf": c, "endpoints": customs(k), "steps": steps})
+    # spacing: a long period (500 ms) on two channels for 6.5 s - every gap is judged, not only the count
+    out.append({"name": "auto/hb_spacing_500", "conf": conf(hb_disable=False, hb_period_ms=500, skip_hb_rate=False, hb_systype=2),
+                "endpoints": customs(2), "steps": opens(2) + [{"op": "sleep", "ms": 6500}]})
     # "not repeated for that sender within 30 seconds" across the 30 s cleaner tick: a sender first seen at node age 25 s
     # keeps sending one heartbeat per second for 13 s (one long scenario; it runs in parallel with the others)
     t = Tags(89000)
